@@ -66,7 +66,7 @@ ALL_INV = ['WellFormedArray', 'Model_Array', 'AppendKeepsPrefix', 'TruncKeepsPre
            'Meta_Model', 'FailedAppendExact', 'CrashSafe', 'TypeOK']
 
 
-def run_instance(name, invariants=ALL_INV, properties=('ReadOnly',), dump=True, workers=8, timeout=900, **over):
+def run_instance(name, invariants=ALL_INV, properties=("ReadOnly",), dump=True, workers=16, timeout=900, **over):
     mod, text, cfg = instance(name, invariants, properties, **over)
     wd = tlc.workdir()
     with open(os.path.join(wd, mod + '.tla'), 'w') as f:
@@ -144,6 +144,53 @@ def classify(exc):
 
 class IterFault(Exception):
     pass
+
+
+class FsizeFault:
+    """Kernel-enforced refusal of file growth: RLIMIT_FSIZE is armed right
+    before the write that is to fail; the SIGXFSZ handler lifts the limit
+    again, so exactly that write fails (possibly after a partial write) and
+    everything after it (recovery, JSON, README) runs normally."""
+
+    def __init__(self):
+        self.fired = False
+        self.armed = False
+        self.old = resource.getrlimit(resource.RLIMIT_FSIZE)
+        self.oldsig = None
+
+    def _handler(self, signum, frame):
+        self.fired = True
+        resource.setrlimit(resource.RLIMIT_FSIZE, self.old)
+
+    def arm(self, limit):
+        self.oldsig = signal.signal(signal.SIGXFSZ, self._handler)
+        resource.setrlimit(resource.RLIMIT_FSIZE, (limit, self.old[1]))
+        self.armed = True
+
+    def disarm(self):
+        if self.armed:
+            resource.setrlimit(resource.RLIMIT_FSIZE, self.old)
+            signal.signal(signal.SIGXFSZ, self.oldsig)
+            self.armed = False
+
+
+class ArmingIter:
+    """iterator over items that arms a write fault before handing out item p"""
+
+    def __init__(self, items, p, fault, limit_fn):
+        self.items, self.p, self.fault, self.limit_fn = list(items), p, fault, limit_fn
+        self.i = 0
+
+    def __iter__(self):
+        return self
+
+    def __next__(self):
+        if self.i >= len(self.items):
+            raise StopIteration
+        self.i += 1
+        if self.i == self.p:
+            self.fault.arm(self.limit_fn())
+        return self.items[self.i - 1]
 
 
 class Skip(Exception):
@@ -247,8 +294,12 @@ class Session:
         kind = f['kind']
         if via == 'append':
             if kind == 'write':
-                with self.fsize_limit(self._limit(cs, f)):
+                flt = FsizeFault()
+                try:
+                    flt.arm(self._limit(f))
                     a.append(chunks[0])
+                finally:
+                    flt.disarm()
             else:
                 a.append(chunks[0])
             return
@@ -263,8 +314,11 @@ class Session:
         elif kind in ('shape', 'rank', 'conv'):
             a.iterappend(self.cfg.iterable(chunks + [self.bad_item(kind)]))
         elif kind == 'write':
-            with self.fsize_limit(self._limit(cs, f)):
-                a.iterappend(self.cfg.iterable(chunks))
+            flt = FsizeFault()
+            try:
+                a.iterappend(ArmingIter(chunks, f['at'], flt, lambda: self._limit(f)))
+            finally:
+                flt.disarm()
         else:
             raise ValueError(kind)
 
@@ -274,32 +328,15 @@ class Session:
     def real_b(self, b, rowbytes_abs=4):
         return max(1, (b * self.cfg.rowbytes) // rowbytes_abs) if b else 0
 
-    def _limit(self, cs, f):
+    def _limit(self, f):
+        """file offset at which the write that is about to happen stops"""
         rb = self.cfg.rowbytes
-        pre = os.path.getsize(os.path.join(self.path, disk.DATA))
-        done = sum(len(c) for c in cs[:f['at'] - 1])
-        lim = pre + done * rb + f['k'] * rb + self.real_b(f['b'])
-        if lim < 12000:
-            # the limit would also hit the (small) JSON/README files: the kernel
-            # fault cannot be isolated to the data file for this case
-            raise Skip('write fault at offset %d cannot be isolated' % lim)
-        return lim
-
-    class fsize_limit:
-        """kernel-enforced refusal of file growth beyond `limit` bytes"""
-
-        def __init__(self, limit):
-            self.limit = limit
-
-        def __enter__(self):
-            self.oldsig = signal.signal(signal.SIGXFSZ, signal.SIG_IGN)
-            self.old = resource.getrlimit(resource.RLIMIT_FSIZE)
-            resource.setrlimit(resource.RLIMIT_FSIZE, (self.limit, self.old[1]))
-
-        def __exit__(self, *a):
-            resource.setrlimit(resource.RLIMIT_FSIZE, self.old)
-            signal.signal(signal.SIGXFSZ, self.oldsig)
-            return False
+        if rb < 4:
+            raise Skip('rows too small for mid-row offsets')
+        now = os.path.getsize(os.path.join(self.path, disk.DATA))
+        if len(self.a) == 0:
+            now = 0   # the first chunk of an empty array is written by path (truncating)
+        return now + f['k'] * rb + self.real_b(f['b'])
 
     def do_TR_Call(self, i):
         if i == NONINT:
